@@ -136,7 +136,7 @@ SPEC = {
         "nearest_correct_partial", "nearest_correct", "nearest_monotone", "nearest64_monotone",
         "nearest_exact_on_representable",
         "literal_tables_as_modelled", "emit_int_exact", "emit_value_exact", "emit_whole_value_exact",
-        "emit_infinity_exact", "emit_f32_double_rounding_witness",
+        "emit_infinity_exact", "emit_negative_exact", "emit_f32_double_rounding_witness",
         "multi_file_spans_in_file", "multi_file_error_in_file"]],
     "harness": "c10",
     "nontrivial": nontrivial,
